@@ -556,6 +556,7 @@ class SimTransport(selector_events._SelectorSocketTransport):
         self._sim_fd = sock._fd
         super().__init__(loop, sock, protocol, waiter, extra, server)
         loop.world.rec("tr_new", tr=self._tid, fd=sock._fd)
+        loop.world.__dict__.setdefault("transports", []).append(self)
 
     def write(self, data: Any) -> None:
         w = self._world
